@@ -510,8 +510,6 @@ _benign_corpus()
 # The full self-test reports them as FALSE-ALARM; the thorough tier lists them as notes instead of failing, because
 # they say something about the checker's reach, not about the tree.  Anything not listed here must be silent.
 KNOWN_BRITTLE = {
-    ("ben-C01-4", "C03"): "read_weights: manual round-up `if` rewritten as div_ceil, `<= -1` as `< 0` (integer identities beyond the normal form)",
-    ("ben-C13-4", "C03"): "read_weights: div_ceil / `> 255` as `>= 256` / `% 2` as `& 1`",
     ("ben-B12-4", "C03"): "decompress_literals: stream sizes read with u16::from_le_bytes([a, b]) — opaque to the linear bound engine, and the guard inventory compares the guard's bound as a normal-form tree",
 }
 
